@@ -64,6 +64,22 @@ theorem rename_recorded (x : Sib) (others : List Sib) (hx : x.ident = none) :
   simp only [Bool.or_eq_true, bne_iff_ne, ne_eq]
   exact Or.inr hne
 
+/-- **The original name is what is written** (`_get_name_string_` after `_add_rename_property`):
+    when the identifier differs from the name the writer emits `rename <identifier> "<name>"` with the
+    untouched original name; when they coincide (and no rename was pending) it emits the identifier. -/
+theorem rename_written (x : Sib) (others : List Sib) (hx : x.ident = none) :
+    (makeValid x.name others ≠ x.name →
+      nameString (assignOne x others) =
+        some (true, ['r', 'e', 'n', 'a', 'm', 'e', ' '] ++ makeValid x.name others ++ [' ', '"'] ++ x.name ++ ['"'])) ∧
+    (makeValid x.name others = x.name → x.rename = false →
+      nameString (assignOne x others) = some (false, x.name)) := by
+  rw [assignOne_of_none hx]
+  refine ⟨fun hne => ?_, fun heq hr => ?_⟩
+  · have : (x.name == makeValid x.name others) = false := by
+      rw [beq_eq_false_iff_ne]; exact fun h => hne h.symm
+    simp [nameString, this]
+  · simp [nameString, heq, hr]
+
 /-- **All identifiers distinct after the pre-pass** (induction over the sibling list): if the
     identifiers that existed before are pairwise different ignoring case, then after the writer's
     pre-pass every element has an identifier, names are untouched, and all identifiers of the
